@@ -118,7 +118,7 @@ def run(ctx, part):
                     if inv["cm"] is None:
                         return
                 cm = inv["cm"]
-                if not cm.ok:
+                if not cm or not cm.ok:
                     return
                 cm.R.ctx = cm.R.S.vf_core_get()
                 if not cm.R.ctx:
